@@ -55,7 +55,7 @@ class Pipeline(Instance):
         self.native_profile = "release" if driver == "single" else "dev"      # the dev build panics in single-file mode (known finding F7)
         self.overflow_checks = driver != "single"      # single-file mode relies on wrapping i32 priorities (known finding F7): release semantics there
         self.required_witnesses = ("finalized",)
-        self.max_wall = 3000
+        self.max_wall = 7200
         self.n_concrete = 1
         self.bounds = {"worker threads": threads, "input": f"{len(samples)} sample(s), contigs {[len(d) for _, cs in samples for _, d in cs]} bases (concrete), k={k}, {len(splitters)} splitter k-mers",
                        "symbolic bases": [f"sample {si} contig {ci} position {pos} over codes {list(sym_alpha)}" for si, ci, pos in sym],
